@@ -14,7 +14,7 @@ BUILTINS = {'len', 'isinstance', 'int', 'bool', 'float', 'hash', 'set', 'list', 
 SPEC_BUILTINS = {'old', 'forall', 'exists', 'implies', 'iff', 'ite', 'result', 'ident', 'cls_is', 'fresh_obj',
                  'keyobj', 'valobj', 'has', 'lower', 'slen', 'ulen', 'blen', 'bat', 'to_real', 'to_int',
                  'exact_class', 'mk_ident', 'rd_ptr', 'rd_srv', 'rd_text', 'rd_addr', 'rd_hinfo', 'rd_nsec',
-                 'some', 'nothing', 'as_', 'unchanged', 'alias_of', 'list_eq', 'card', 'heap_eq', 'div', 'mod'}
+                 'some', 'nothing', 'as_', 'allocated', 'uf', 'unchanged', 'alias_of', 'list_eq', 'card', 'heap_eq', 'div', 'mod'}
 
 
 class ExprMixin:
@@ -63,6 +63,8 @@ class ExprMixin:
             return st.bound[name]
         if name in st.ghost:
             return st.ghost[name]
+        if name in self.ctx.ghost_objects:
+            return self.ctx.ghost_objects[name]
         if name in ('True', 'False'):
             return PyConst(name == 'True')
         if st.spec and name in SPEC_BUILTINS:
@@ -74,6 +76,8 @@ class ExprMixin:
             return v
         if name in BUILTINS:
             return FuncV('builtin', name=name)
+        if st.spec and name in self.ctx.shapes._ids:
+            return ClassV(name)
         if name in self.ctx.exc_parent:
             return ClassV(name)
         raise VCError('unresolved name %s in %s (line %s)' % (name, frame.label, getattr(node, 'lineno', '?')))
@@ -621,6 +625,10 @@ class ExprMixin:
             if fs is not None:
                 yield st, self.read_field(v, fs, st)
                 return
+            for c in ctx.shapes.mro(cls):
+                if 'method:%s.%s' % (c, attr) in ctx.stubs:
+                    yield st, FuncV('stubmethod', recv=v, fn=ctx.stubs['method:%s.%s' % (c, attr)])
+                    return
             f = ctx.repo.find_method(cls, attr)
             if f is not None:
                 if any(isinstance(d, ast.Name) and d.id == 'property' for d in f.node.decorator_list):
